@@ -333,6 +333,7 @@ class Parser:
         for n, code in enumerate(mac.args):
             arg_extr = arg = []
             delim = False
+            pos_prev = pos
             tok = buf.skip_space()
             if tok:
                 pos = tok.pos
@@ -345,6 +346,8 @@ class Parser:
                     delim = True
                     arg_extr = arg = self.arg_buffer(buf, pos, end=']').all()
                 else:
+                    # NB: the next token need not belong to the macro call
+                    pos = pos_prev
                     if n < len(mac.defaults):
                         # NB: do not use positions from macro definition
                         arg = [copy.copy(t) for t in mac.defaults[n]]
